@@ -15,6 +15,7 @@
 #define CELMA_COMMON_SINGLETON_HPP
 
 
+#include <atomic>
 #include <memory>
 #include <mutex>
 #include <utility>
@@ -89,14 +90,20 @@ private:
    /// thread-safe.
    static std::mutex           mMutex;
    /// The singleton object, created when instance() is called for the first
-   /// time.
+   /// time. Only accessed while the mutex is locked.
    static std::unique_ptr< T>  mpObject;
+   /// Pointer to the singleton object for the lock-free check in instance().
+   /// Published with release semantics after the object was completely
+   /// constructed, so a thread that reads a non-NULL pointer without holding
+   /// the mutex sees a fully initialised object.
+   static std::atomic< T*>     mpInstance;
 
 }; // Singleton< T>
 
 
 template< class T> std::mutex           Singleton< T>::mMutex;
 template< class T> std::unique_ptr< T>  Singleton< T>::mpObject;
+template< class T> std::atomic< T*>     Singleton< T>::mpInstance{ nullptr};
 
 
 // inlined methods
@@ -107,16 +114,21 @@ template< class T> template< class... Args>
    T& Singleton< T>::instance( Args&&... args)
 {
 
-   if (mpObject.get() == nullptr)
+   auto  p_instance = mpInstance.load( std::memory_order_acquire);
+
+   if (p_instance == nullptr)
    {
       const std::lock_guard< std::mutex>  lg( mMutex);
-      if (mpObject.get() == nullptr)
+      p_instance = mpInstance.load( std::memory_order_relaxed);
+      if (p_instance == nullptr)
       {
          mpObject.reset( new T( std::forward< Args>( args)...));
+         p_instance = mpObject.get();
+         mpInstance.store( p_instance, std::memory_order_release);
       } // end if
    } // end if
 
-   return *mpObject;
+   return *p_instance;
 } // Singleton< T>::instance
 
 
@@ -124,6 +136,7 @@ template< class T> void Singleton< T>::reset()
 {
 
    const std::lock_guard< std::mutex>  lg( mMutex);
+   mpInstance.store( nullptr, std::memory_order_release);
    mpObject.reset();
    
 } // Singleton< T>::reset
